@@ -273,8 +273,11 @@ def depsLoop (fwd : Nat → List Nat) : Nat → List Nat → List Nat → Outcom
 def edgeCount (m : MM) : Nat := (m.map (fun p => p.2.length)).sum
 
 /-- `lazyInstMgr::instanceDependencies(id)` (the result is a `std::set`; here: the members, newest first) -/
+def depsFuel (m : MM) (id : Nat) : Nat :=
+  (m.find id).length + (m.map (fun p => (m.find p.1).length)).sum
+
 def deps (ix : Index) (id : Nat) : Outcome (List Nat) :=
-  depsLoop ix.fwd.find (2 * edgeCount ix.fwd + 1) (ix.fwd.find id) []
+  depsLoop ix.fwd.find (depsFuel ix.fwd id) (ix.fwd.find id) []
 
 /-! ### `loadInstance` -/
 
@@ -295,9 +298,19 @@ def Cache.set (c : Cache) (id : Nat) (r : List (Nat × Bool)) : Cache :=
 def refsOf (es : List Entry) (id : Nat) : Option (List Nat) :=
   (es.find? (fun e => e.id == id)).map (·.refs)
 
-mutual
+/-- `STEPread` of one instance: every `#n` goes through `instMgrAdapter::FindFileId(n)->GetSTEPentity()`, i.e. `rec` -/
+def loadRefsWith (rec : Cache → Nat → Outcome (Cache × Bool)) :
+    Cache → List Nat → List (Nat × Bool) → Outcome (Cache × List (Nat × Bool))
+  | c, [], acc => .ok (c, acc.reverse)
+  | c, r :: t, acc =>
+    match rec c r with
+    | .ok (c1, b) => loadRefsWith rec c1 t ((r, b) :: acc)
+    | .fail => .fail
+    | .crash => .crash
+    | .outOfFuel => .outOfFuel
+
 /-- `lazyInstMgr::loadInstance(id)`: returns the cache and whether a non-null instance came back.
-    `early` = the instance is entered in `_instancesLoaded` before `STEPread` runs. -/
+    `early` = the instance is entered in `_instancesLoaded` before `STEPread` runs.  Fuel = recursion depth. -/
 def load (early : Bool) (es : List Entry) : Nat → Cache → Nat → Outcome (Cache × Bool)
   | 0, _, _ => .outOfFuel
   | f + 1, c, id =>
@@ -306,25 +319,13 @@ def load (early : Bool) (es : List Entry) : Nat → Cache → Nat → Outcome (C
     | none => .ok (c, false)
     | some refs =>
       let c0 := if early then c ++ [{ id := id, resolved := none }] else c
-      match loadRefs early es f c0 refs [] with
+      match loadRefsWith (load early es f) c0 refs [] with
       | .ok (c1, res) =>
         if early then .ok (c1.set id res, true)
         else .ok (c1 ++ [{ id := id, resolved := some res }], true)
       | .fail => .fail
       | .crash => .crash
       | .outOfFuel => .outOfFuel
-/-- `STEPread` of one instance: every `#n` goes through `instMgrAdapter::FindFileId(n)->GetSTEPentity()` -/
-def loadRefs (early : Bool) (es : List Entry) : Nat → Cache → List Nat → List (Nat × Bool) →
-    Outcome (Cache × List (Nat × Bool))
-  | 0, _, _, _ => .outOfFuel
-  | _ + 1, c, [], acc => .ok (c, acc.reverse)
-  | f + 1, c, r :: t, acc =>
-    match load early es f c r with
-    | .ok (c1, b) => loadRefs early es f c1 t ((r, b) :: acc)
-    | .fail => .fail
-    | .crash => .crash
-    | .outOfFuel => .outOfFuel
-end
 
 /-- a history of `loadInstance` calls -/
 def loadAll (early : Bool) (es : List Entry) (fuel : Nat) : Cache → List Nat → Outcome (Cache × List Bool)
